@@ -69,9 +69,9 @@ func (*c07Prop) Components() map[string]interface{} {
 
 func (*c07Prop) Plans(tier string) []Plan {
 	if tier == "quick" {
-		return []Plan{{Name: "consumers", Workers: 14, Runs: 6000, MaxTime: 45e9, Size: 12}}
+		return []Plan{{Name: "consumers", Workers: 16, Runs: 20000, MaxTime: 45e9, Size: 12}}
 	}
-	return []Plan{{Name: "consumers", Workers: 16, Runs: 200000, MaxTime: 540e9, Size: 20}}
+	return []Plan{{Name: "consumers", Workers: 16, Runs: 4000000, MaxTime: 600e9, Size: 20}, {Name: "consumers-small", Workers: 16, Runs: 4000000, MaxTime: 300e9, Size: 7}}
 }
 
 var c07Wraps = []string{"any-x", "any-x", "any-rev", "choice", "opt", "seq-y", "seq-opt", "many", "sepby", "single", "ltrim", "rtrim", "returnsingle", "sentence", "memo"}
